@@ -94,3 +94,121 @@ Proof.
         inversion Ee; subst. destruct (IH r eq_refl) as [H1 H2]. cbn. rewrite H1. unfold tr_id in H2. rewrite H2. split; reflexivity. }
   tauto.
 Qed.
+
+(* ================= the explicit domain: scalar attributes ================= *)
+(* every property column holds Python scalars that numpy -- with the fill value where an element lacks the property --
+   types alike (col_dt): all bool, all ints of the int64 range, all ints of [2^63, 2^64) on every element, all float, all str *)
+Record dom_scalar (d : bool) (g : dgraph) : Prop := {
+  ds_range : Forall (fun z => (0 <= z < 2 ^ 64)%Z) (map fst (d_nodes g));
+  ds_distinct : distinctb Z.eqb (map fst (d_nodes g)) = true;
+  ds_edistinct : distinctb (ekey_eqb d) (map fst (d_edges g)) = true;
+  ds_endpoints : forall e, In e (map fst (d_edges g)) -> In (fst e) (map fst (d_nodes g)) /\ In (snd e) (map fst (d_nodes g));
+  ds_ncols : forall name, In name (keys_of (map snd (d_nodes g))) ->
+             name <> "" /\ exists dt, col_dt (column (map snd (d_nodes g)) name) = Some dt;
+  ds_ecols : forall name, In name (keys_of (map snd (d_edges g))) ->
+             name <> "" /\ exists dt, col_dt (column (map snd (d_edges g)) name) = Some dt
+}.
+
+Lemma keys_nonempty (data : list attrs) name : In name (keys_of data) -> data <> [].
+Proof. intros H E. subst data. destruct H. Qed.
+
+Lemma scalar_cols_ok (data : list attrs) :
+  (forall name, In name (keys_of data) -> name <> "" /\ exists dt, col_dt (column data name) = Some dt) ->
+  cols_ok cv_scalar data (keys_of data).
+Proof.
+  intros H. apply Forall_forall. intros name Hin. destruct (H name Hin) as [Hne [dt Hdt]]. split; [exact Hne|].
+  assert (Hc : column data name <> []).
+  { intro E. apply (keys_nonempty data name Hin). apply length_zero_iff_nil. rewrite <- (column_length data name), E. reflexivity. }
+  destruct (scalar_column _ dt Hdt Hc) as [p [Hp [Hg _]]]. exists p. auto.
+Qed.
+
+Lemma dom_scalar_dicts d g : dom_scalar d g -> dom_dicts cv_scalar d g.
+Proof. intros H. constructor; try apply H.
+  - apply scalar_cols_ok. apply (ds_ncols _ _ H).
+  - apply scalar_cols_ok. apply (ds_ecols _ _ H). Qed.
+
+(* the whole round trip as one function of the written graph *)
+Definition nx_rt (d : bool) (g : dgraph) (mdtok axtok : Z) : res cgraph :=
+  let (post, r) := run (api_write KObj (nx_write KObj d g None mdtok axtok)) None in
+  match r with
+  | Err e => Err e
+  | Ok _ => match read_to_memory KObj post true None None with
+            | Err e => Err e
+            | Ok mg => nx_construct mg
+            end
+  end.
+
+Definition rx_rt (d : bool) (g : dgraph) (idmap : option (list (Z * Z))) (mdtok axtok : Z) : res cgraph :=
+  let (post, r) := run (api_write KObj (rx_write KObj d g idmap None mdtok axtok)) None in
+  match r with
+  | Err e => Err e
+  | Ok _ => match read_to_memory KObj post true None None with
+            | Err e => Err e
+            | Ok mg => match rx_construct mg with
+                       | Err e => Err e
+                       | Ok r => match canon_rx r with Some cg => Ok cg | None => Err OtherExn end
+                       end
+            end
+  end.
+
+Theorem nx_rt_scalar d g mdtok axtok : dom_scalar d g ->
+  exists cg, nx_rt d g mdtok axtok = Ok cg /\ same_graph cv_scalar d g cg.
+Proof. intros H. destruct (nx_roundtrip cv_scalar d g mdtok axtok (dom_scalar_dicts d g H)) as [post [mg [cg [Hw [_ [Hr [Hc Hs]]]]]]].
+  exists cg. split; [|exact Hs]. unfold nx_rt. rewrite Hw, Hr. exact Hc. Qed.
+
+Theorem rx_rt_scalar d g idmap g' mdtok axtok : rx_target idmap g = Ok g' -> dom_scalar d g' ->
+  exists cg, rx_rt d g idmap mdtok axtok = Ok cg /\ same_graph cv_scalar d g' cg.
+Proof. intros Ht H. destruct (rx_roundtrip cv_scalar d g idmap g' mdtok axtok Ht (dom_scalar_dicts d g' H))
+    as [post [mg [r [cg [Hw [_ [Hr [Hc [Hcr Hs]]]]]]]]].
+  exists cg. split; [|exact Hs]. unfold rx_rt. rewrite Hw, Hr, Hc, Hcr. reflexivity. Qed.
+
+(* the fill value has the type of the value it stands in for (bool before int) *)
+Lemma default_kind v : sk_of_py (default_for_value v) = sk_of_py v /\ (is_plist v = false -> scalar_payload (default_for_value v) = 0%Z).
+Proof. destruct v; cbn; auto. Qed.
+
+(* ---------- the property text without the int64 guard is false: a computed witness ---------- *)
+(* "plain" columns: the present values are scalars of one Python type, ints anywhere in [-2^63, 2^64) *)
+Definition plain_col (col : list (option pyval)) : Prop :=
+  exists k, forall v, In (Some v) col -> sk_of_py v = Some k /\ forall z, v = PInt z -> (- 2 ^ 63 <= z < 2 ^ 64)%Z.
+
+Record dom_plain (d : bool) (g : dgraph) : Prop := {
+  dp_range : Forall (fun z => (0 <= z < 2 ^ 64)%Z) (map fst (d_nodes g));
+  dp_distinct : distinctb Z.eqb (map fst (d_nodes g)) = true;
+  dp_edistinct : distinctb (ekey_eqb d) (map fst (d_edges g)) = true;
+  dp_endpoints : forall e, In e (map fst (d_edges g)) -> In (fst e) (map fst (d_nodes g)) /\ In (snd e) (map fst (d_nodes g));
+  dp_ncols : forall name, In name (keys_of (map snd (d_nodes g))) -> name <> "" /\ plain_col (column (map snd (d_nodes g)) name);
+  dp_ecols : forall name, In name (keys_of (map snd (d_edges g))) -> name <> "" /\ plain_col (column (map snd (d_edges g)) name)
+}.
+
+Definition nx_roundtrip_full : Prop :=
+  forall d g mdtok axtok, dom_plain d g -> exists cg, nx_rt d g mdtok axtok = Ok cg /\ same_graph cv_scalar d g cg.
+
+Definition ex_big : dgraph := mkdg [(1%Z, [("p", PInt 1)]); (2%Z, [("p", PInt (2 ^ 63))])] [].
+Definition ex_big_missing : dgraph := mkdg [(1%Z, [("p", PInt (2 ^ 63 + 5))]); (2%Z, [])] [].
+
+Lemma ex_big_plain : dom_plain true ex_big.
+Proof. constructor.
+  - repeat constructor; cbn; lia.
+  - reflexivity.
+  - reflexivity.
+  - intros e [].
+  - intros name Hin. vm_compute in Hin. destruct Hin as [<-|[]]. split; [discriminate|].
+    exists SInt. intros v Hv. vm_compute in Hv. destruct Hv as [Hv|[Hv|[]]]; inversion Hv; subst; (split; [reflexivity|]); intros z Hz; inversion Hz; subst; lia.
+  - intros name [].
+Qed.
+
+Lemma ex_big_result : nx_rt true ex_big 0 0
+  = Ok (mkcg true [(1%Z, [("p", CScalar SFloat 1024)]); (2%Z, [("p", CScalar SFloat (2 ^ 63 * 1024))])] []).
+Proof. vm_compute. reflexivity. Qed.
+
+Theorem nx_roundtrip_refuted : ~ nx_roundtrip_full.
+Proof.
+  intro H. destruct (H true ex_big 0%Z 0%Z ex_big_plain) as [cg [Hrt [_ [_ [_ [Hn _]]]]]].
+  rewrite ex_big_result in Hrt. inversion Hrt; subst cg. specialize (Hn 0%nat "p" ltac:(cbn; lia)).
+  vm_compute in Hn. discriminate.
+Qed.
+
+(* the same with an element that merely lacks the property: the fill value 0 is an int64 *)
+Lemma ex_big_missing_result : nx_rt true ex_big_missing 0 0
+  = Ok (mkcg true [(1%Z, [("p", CScalar SFloat (2 ^ 63 * 1024))]); (2%Z, [])] []).
+Proof. vm_compute. reflexivity. Qed.
